@@ -3,29 +3,11 @@
 
 use crate::codec_table::hex;
 use crate::dump::{function_ops, validity};
-use crate::fields::MapSource;
-use crate::gen_instrs;
+use crate::witness::parse_instruction;
 use crate::roundtrip::{run_walrus, Options, Outcome};
 use crate::template::{self, Env};
 use serde_json::{json, Map, Value};
-use std::collections::BTreeMap;
 use wasm_encoder::Encode;
-
-fn value_to_field_string(v: &Value) -> Result<String, String> {
-    match v {
-        Value::String(s) => Ok(s.clone()),
-        Value::Number(n) => Ok(n.to_string()),
-        Value::Bool(b) => Ok(b.to_string()),
-        Value::Array(a) => {
-            let mut parts = Vec::new();
-            for x in a {
-                parts.push(value_to_field_string(x)?);
-            }
-            Ok(format!("[{}]", parts.join(", ")))
-        }
-        other => Err(format!("unsupported field value {}", other)),
-    }
-}
 
 fn is_nop(debug: &str) -> bool {
     debug == "Nop"
@@ -42,45 +24,23 @@ pub fn run(path: &str, emit_wasm: Option<&str>) -> Result<(Value, i32), String> 
             return Err(format!("unknown witness key `{}`", k));
         }
     }
-    let name = obj
-        .get("instruction")
-        .and_then(|v| v.as_str())
-        .ok_or("witness needs a string `instruction`")?;
-    // tolerate the "#suffix" used in codec-table entry names
-    let name = name.split('#').next().unwrap_or(name).to_string();
-    let mut map = BTreeMap::new();
-    if let Some(f) = obj.get("fields") {
-        let f = f.as_object().ok_or("`fields` must be an object")?;
-        for (k, v) in f {
-            map.insert(k.clone(), value_to_field_string(v).map_err(|e| format!("field `{}`: {}", k, e))?);
-        }
-    }
     let memory64 = match obj.get("memory64") {
         None | Some(Value::Null) => false,
         Some(Value::Bool(b)) => *b,
         Some(_) => return Err("`memory64` must be a boolean".into()),
     };
-    let atomic = name.contains("Atomic");
+    let atomic = obj
+        .get("instruction")
+        .and_then(|v| v.as_str())
+        .map_or(false, |n| n.contains("Atomic"));
     let shared = match obj.get("shared") {
         None | Some(Value::Null) => atomic,
         Some(Value::Bool(b)) => *b,
         Some(_) => return Err("`shared` must be a boolean".into()),
     };
 
-    if !gen_instrs::VARIANTS.iter().any(|v| v.name == name) {
-        return Err(format!("unknown wasm_encoder::Instruction variant `{}`", name));
-    }
-    let mut src = MapSource::new(map);
-    let instr = gen_instrs::build(&name, &mut src).map_err(|e| format!("cannot build {}: {}", name, e))?;
-    let unused = src.unused_keys();
-    if !unused.is_empty() {
-        return Err(format!(
-            "witness has fields that {} does not have: {:?} (expected: {:?})",
-            name,
-            unused,
-            src.rendered.iter().map(|(k, _)| k.clone()).collect::<Vec<_>>()
-        ));
-    }
+    let built = parse_instruction(&w, &["memory64", "shared"])?;
+    let (name, instr, src) = (built.name, built.instr, built.src);
     let mut instr_bytes = Vec::new();
     instr.encode(&mut instr_bytes);
 
